@@ -66,6 +66,10 @@ _sliced(dict(XI, name="xml_import_cpukind", entry="h_import_cpukind", checks="sa
 _sliced(dict(XI, name="xml_import_memattr", entry="h_import_memattr", checks="safety+", encoded=["hwloc__xml_import_memattr", "hwloc__xml_import_memattr_value", "hwloc___xml_import_info", "hwloc_memattr_register", "hwloc_memattr_get_by_name", "hwloc_internal_memattr_set_value", "hwloc__memattr_get_target", "hwloc__memattr_target_get_initiator"],
              unwindset=dict(XT_UW, **{"h_import_memattr.%d" % k: 12 for k in range(6)}), tiers={"quick": {}, "thorough": {}}, cost=80,
              bounds="<memattr> elements: name in {built-in Bandwidth, new, missing} x flags in {5, 1, 3, missing} x 10 kinds of <memattr_value> (cpuset/object/no initiator, missing or unknown target type, missing value, unknown attribute, unknown or incomplete initiator) x NO_MEMATTRS, plus {unknown attribute, unknown child, info child}; concrete runs selected by symbolic inputs on a fresh attribute table"), 8)
+C12_EXTRA = [dict(XT, name="xml_dup_export_%s" % nm, entry="h_xml_dup_export", defines=d, encoded=["hwloc_topology_dup", "hwloc__topology_dup", "hwloc__duplicate_object", "hwloc_internal_distances_dup", "hwloc_internal_cpukinds_dup", "hwloc_internal_memattrs_dup", "hwloc__tma_dup_infos", "hwloc__xml_export_topology", "hwloc_topology_destroy", "hwloc_topology_clear", "hwloc_free_unlinked_object", "hwloc_internal_distances_destroy", "hwloc_internal_cpukinds_destroy"],
+                  unwindset=dict(XT_UW, **{"h_xml_dup_export.0": 18}), tiers={"quick": {}, "thorough": {}}, cost=120,
+                  bounds="one fixture topology built by the real core (%s) duplicated by the real hwloc_topology_dup: field-by-field comparison, userdata pointers, identical exported document, then both destroyed (%s first): a block shared by the two copies would be freed twice (concrete run)" % (txt, "original" if d.get("DESTROY_ORDER", 0) == 0 else "copy"))
+             for nm, d, txt in (("rich", {"FIX": 1, "FIXM": 95}, "13 objects: L2, Group, memory-side cache, page types, Misc, names, subtype, infos"), ("tables", {"FIX": 0, "WITH_DIST": 1, "WITH_CPUKINDS": 1, "DESTROY_ORDER": 1}, "9 objects + a distances matrix + two CPU kinds with infos"))]
 XD = dict(XT, units=XT["units"] + ["hwloc/diff.c"])
 C16_EXTRA = [dict(XD, name="xml_diff_roundtrip_e%d" % e, entry="h_xml_diff_roundtrip", defines={"DENTRY": e}, encoded=["hwloc__xml_export_diff", "hwloc__xml_import_diff", "hwloc__xml_import_diff_one"], tiers=({"quick": {}, "thorough": {}} if e == 0 else {"thorough": {"timeout": 900}}), core=(e == 0), mem_gb=(16 if e == 0 else 8), cost=20,
                   bounds="one diff entry (%s) through the real exporter, an element tree and the real importer: same entry (concrete run)" % ["64-bit size change on a special (negative) depth", "name change", "info change"][e]) for e in (0, 1, 2)]
